@@ -3,7 +3,7 @@ import H4.Gen.Macros
 /-! # Model of `hdf/src/atom.c` (C13, atom layer)
 
 State = the file-scope variables of `atom.c`:
-`atom_group_list[MAXGROUP]`, `atom_free_list`, `atom_id_cache[4]` / `atom_obj_cache[4]`.
+`atom_group_list[MAXGROUP]`, `atom_next_id[MAXGROUP]`, `atom_free_list`, `atom_id_cache[4]` / `atom_obj_cache[4]`.
 
 Conventions
 * an atom (`atom_t` = `int32_t`) is carried as the `Nat` below `2^32` with the same bit pattern
@@ -16,7 +16,7 @@ Conventions
 * `HEclear`/`HGOTO_ERROR` only touch the error stack, which is not modelled;
   allocation failure (`DFE_NOSPACE`) is not modelled.
 * `unsigned count` is an unbounded `Nat` (2^32 nested `HAinit_group` calls are not modelled);
-  `unsigned nextid` wraps at `2^UNSIGNED_BITS` as in C.
+  the `unsigned atom_next_id[]` counters wrap at `2^UNSIGNED_BITS` as in C.
 -/
 namespace H4.Atom
 open H4.Gen.Atom H4.Gen.Macros
@@ -35,7 +35,6 @@ structure Group where
   count : Nat := 0
   hashSize : Nat := 0
   atoms : Nat := 0
-  nextid : Nat := 0
   /-- `atom_list`: `hash_size` chains; `[]` stands for the `NULL` pointer left by `HAdestroy_group`/`calloc` -/
   atomList : List (List Info) := []
 deriving DecidableEq, Repr, Inhabited
@@ -56,6 +55,9 @@ def Cache.toList (c : Cache) : List Info := [c.c0, c.c1, c.c2, c.c3]
 structure State where
   /-- `atom_group_list[MAXGROUP]`, `none` = `NULL` -/
   groups : List (Option Group)
+  /-- `atom_next_id[MAXGROUP]`: the id counter of each group; it is NOT part of the group record, so it survives
+      `HAdestroy_group` and `HAshutdown` (an id is never issued twice before the 28-bit counter wraps) -/
+  nextIds : List Nat
   /-- `atom_free_list`: released nodes, most recently released first (stale contents as in C) -/
   freeList : List Info
   cache : Cache
@@ -64,10 +66,14 @@ deriving DecidableEq, Repr, Inhabited
 /-- static initialisers of `atom.c`; the cache contents are the compiled initialisers (`H4.Gen.Atom.atom_*_cache_init`) -/
 def State.init : State :=
   let slot (k : Nat) : Info := ⟨atom_id_cache_init.getD k 0, atom_obj_cache_init.getD k 0⟩
-  { groups := List.replicate MAXGROUP none, freeList := [], cache := ⟨slot 0, slot 1, slot 2, slot 3⟩ }
+  { groups := List.replicate MAXGROUP none, nextIds := atom_next_id_init, freeList := [],
+    cache := ⟨slot 0, slot 1, slot 2, slot 3⟩ }
 
 /-- `atom_group_list[g]` -/
 def getG (s : State) (g : Nat) : Option Group := (s.groups.getD g none)
+
+/-- `atom_next_id[g]` -/
+def nextId (s : State) (g : Nat) : Nat := s.nextIds.getD g 0
 
 /-- `atom_group_list[g] = p` -/
 def setG (s : State) (g : Nat) (p : Group) : State := { s with groups := s.groups.set g (some p) }
@@ -114,7 +120,7 @@ def initGroup (s : State) (grp : Int) (hashSize : Nat) : State × Int :=
     let gp : Group := (getG s g).getD {}
     let gp : Group :=
       if gp.count == 0 then
-        { gp with hashSize := hashSize, atoms := 0, nextid := 0, atomList := List.replicate hashSize [] }
+        { gp with hashSize := hashSize, atoms := 0, atomList := List.replicate hashSize [] }
       else gp
     (setG s g { gp with count := gp.count + 1 }, SUCCEED)
 
@@ -150,14 +156,15 @@ def registerAtom (s : State) (grp : Int) (obj : Nat) : State × Nat :=
       if gp.count == 0 then (s, FAIL_ATOM)
       else
         let s := getAtomNode s
-        let atm := MAKE_ATOM g gp.nextid
-        let loc := gp.nextid % gp.hashSize
+        let n := nextId s g
+        let atm := MAKE_ATOM g n
+        let loc := n % gp.hashSize
         -- prepend to the bucket's chain
         let chain := gp.atomList.getD loc []
         let gp := { gp with atomList := gp.atomList.set loc (⟨atm, obj⟩ :: chain),
-                            atoms := gp.atoms + 1,
-                            nextid := (gp.nextid + 1) % 2 ^ UNSIGNED_BITS }
-        (setG s g gp, atm)
+                            atoms := gp.atoms + 1 }
+        -- `atom_next_id[grp]++`
+        (setG { s with nextIds := s.nextIds.set g ((n + 1) % 2 ^ UNSIGNED_BITS) } g gp, atm)
 
 /-- `HAIfind_atom(atm)`: general lookup; a hit is stored in the LAST cache slot -/
 def findAtom (s : State) (atm : Nat) : State × Option Info :=
@@ -245,9 +252,11 @@ def searchAtom (s : State) (grp : Int) (p : Nat → Bool) : Nat :=
         | none => NULL
         | some n => n.obj
 
-/-- `HAshutdown()`: the free list and every group are released. NOTE: the atom cache is left as it is. -/
+/-- `HAshutdown()`: the free list and every group are released and every cache slot is emptied.
+    `atom_next_id[]` is left as it is. -/
 def shutdown (s : State) : State :=
-  { s with freeList := [], groups := List.replicate MAXGROUP none }
+  { s with freeList := [], groups := List.replicate MAXGROUP none,
+           cache := ⟨emptySlot, emptySlot, emptySlot, emptySlot⟩ }
 
 /-! ## operation histories -/
 
@@ -298,37 +307,22 @@ def runR (s : State) : List Op → List Res
 /-- precondition of one call, evaluated in the state in which it is made:
     * `HAinit_group`: `hash_size <= 2^ATOM_BITS` (atom.c, comment on `ATOM_TO_LOC`: "assumes s is a power of 2 and smaller
       than the ATOM_MASK constant"; `HAinit_group` itself only checks the power of two);
-    * `HAregister_atom` into a live group: fewer than `2^ATOM_BITS` atoms were registered in the group since it was
-      (re-)initialised (`nextid < 2^28`), i.e. the 28-bit counter has not wrapped;
-    * `HAshutdown` is not called (it is the library's exit handler). -/
+    * `HAregister_atom` into a live group: fewer than `2^ATOM_BITS` atoms were registered in the group since the process
+      started (`atom_next_id[grp] < 2^28`), i.e. the 28-bit counter has not wrapped.
+    Every other call, `HAshutdown` included, is always admissible. -/
 def opOk (s : State) : Op → Bool
   | .init _ hs => hs ≤ 2 ^ ATOM_BITS
   | .register grp _ =>
     if badGroup grp then true
     else match getG s grp.toNat with
-      | some gp => gp.count == 0 || gp.nextid < 2 ^ ATOM_BITS
+      | some gp => gp.count == 0 || nextId s grp.toNat < 2 ^ ATOM_BITS
       | none => true
-  | .shutdown => false
   | _ => true
 
 /-- every call of the history satisfies `opOk` in the state it is made in -/
 def adm (s : State) : List Op → Bool
   | [] => true
   | op :: ops => opOk s op && adm (step s op).1 ops
-
-/-- a `HAinit_group` call that re-initialises: it succeeds on a group that was used before and whose init count is back to 0 -/
-def isReinit (s : State) : Op → Bool
-  | .init grp hs =>
-    if badGroup grp || hs == 0 || (hs &&& (hs - 1) != 0) then false
-    else match getG s grp.toNat with
-      | some gp => gp.count == 0
-      | none => false
-  | _ => false
-
-/-- no call of the history re-initialises a group -/
-def noReinit (s : State) : List Op → Bool
-  | [] => true
-  | op :: ops => !isReinit s op && noReinit (step s op).1 ops
 
 /-! ## state observers used in the theorem statements (all executable) -/
 
@@ -351,13 +345,10 @@ def groupCount (s : State) (g : Nat) : Nat :=
   | none => 0
 
 /-- `atm` carries a valid group whose counter has already passed the atom's 28-bit index, i.e. (as long as the
-    counter has not wrapped) `atm` was issued by `HAregister_atom` since the group's table was last created -/
+    counter has not wrapped) `atm` was issued by `HAregister_atom` at some time in this process -/
 def issued (s : State) (atm : Nat) : Bool :=
   let g := ATOM_TO_GROUP atm
-  decide (g < MAXGROUP) &&
-    match getG s g with
-    | some gp => decide (atm % 2 ^ ATOM_BITS < gp.nextid)
-    | none => false
+  decide (g < MAXGROUP) && decide (atm % 2 ^ ATOM_BITS < nextId s g)
 
 /-- along `ops`, `atm` is never passed to `HAremove_atom` and its group's init count never returns to 0 -/
 def keeps (atm : Nat) (s : State) : List Op → Bool
@@ -369,7 +360,7 @@ def keeps (atm : Nat) (s : State) : List Op → Bool
 
 `SGroup.live` is the list of the current registrations of the group (most recent first): a successful
 `HAregister_atom` adds `(id, obj)`, a successful `HAremove_atom id` deletes the entry of `id`, the last
-`HAdestroy_group` deletes all.  No hash table, no cache, no free list. -/
+`HAdestroy_group` of the group or `HAshutdown` deletes all; the id counter `nextid` is never reset.  No hash table, no cache, no free list. -/
 
 structure SGroup where
   count : Nat := 0
@@ -393,7 +384,7 @@ def sstep (sp : SState) : Op → SState
     if badGroup grp || hs == 0 || (hs &&& (hs - 1) != 0) then sp
     else
       let sg := sp grp.toNat
-      upd sp grp.toNat (if sg.count == 0 then { count := 1, nextid := 0, live := [] } else { sg with count := sg.count + 1 })
+      upd sp grp.toNat (if sg.count == 0 then { sg with count := 1, live := [] } else { sg with count := sg.count + 1 })
   | .destroy grp =>
     if badGroup grp then sp
     else
@@ -413,7 +404,7 @@ def sstep (sp : SState) : Op → SState
     | some _ =>
       let g := ATOM_TO_GROUP atm
       upd sp g { sp g with live := (sp g).live.eraseP (fun e => e.id == atm) }
-  | .shutdown => SState.init
+  | .shutdown => fun g => { sp g with count := 0, live := [] }
   | _ => sp
 
 /-- spec result of every call except `HAsearch_atom` -/
